@@ -115,7 +115,10 @@ func execC05E2EInner(c c05Case) *ev.Failure {
 	case "simple.stream":
 		var calls int64
 		h := okHandler()
-		h.echo = func(ctx frugal.FContext, v string) (string, error) { atomic.AddInt64(&calls, 1); return "echo:" + v, nil }
+		h.echo = func(ctx frugal.FContext, v string) (string, error) {
+			atomic.AddInt64(&calls, 1)
+			return "echo:" + v, nil
+		}
 		sock, err := thrift.NewTServerSocket("127.0.0.1:0")
 		if err != nil {
 			return ev.Failf("harness:listen", "%v", err)
